@@ -959,7 +959,7 @@ def inline_methods_by_name(index: RepoIndex, expr: ast.AST, depth: int = 3,
                     return c
                 m = cands[0]
             fn = m.node
-            if (fn.decorator_list and not static) or fn.args.vararg or fn.args.kwarg or \
+            if (fn.decorator_list and not static) or fn.args.kwarg or \
                     any(isinstance(a, ast.Starred) for a in c.args) or \
                     any(k.arg is None for k in c.keywords):
                 return c
@@ -983,9 +983,17 @@ def inline_methods_by_name(index: RepoIndex, expr: ast.AST, depth: int = 3,
                 return c
             if static:
                 bound: Dict[str, ast.AST] = dict(zip(params, c.args))
+                n_pos = len(params)
             else:
                 bound = {params[0]: c.func.value}
                 bound.update(zip(params[1:], c.args))
+                n_pos = len(params) - 1
+            if fn.args.vararg is not None:
+                # `def tile(self, *reps)` called as `tile(h, w, 1)`: reps is the tuple of the
+                # remaining positional arguments
+                bound[fn.args.vararg.arg] = ast.Tuple(list(c.args[n_pos:]), ast.Load())
+            elif len(c.args) > n_pos:
+                return c
             for k in c.keywords:
                 bound[k.arg] = k.value
             defaults = m.param_defaults()
